@@ -183,8 +183,8 @@ DEPS[list(DEPS)[-1]] += KANI_FLAGS_TOML
 UF_ATTRS = ("#[cfg_attr(kani, kani::stub(crate::op::Op::eval_value_unary, crate::opuf::unary))]\n"
             "#[cfg_attr(kani, kani::stub(crate::op::Op::eval_value_binary, crate::opuf::binary))]")
 
-SHAPE = "shape: exactly %d element(s), repeat counts 0..=2, total width <= 64 (element values, widths and signedness symbolic)"
-KINDS = {"concat_layout_n%d" % n: ("bounded", SHAPE % n) for n in range(4)}
+SHAPE = "shape: exactly %d element(s), repeat counts 0..=%d, 1 <= total width <= 64 (element values, widths and signedness symbolic)"
+KINDS = {"concat_layout_n%d" % n: ("bounded", SHAPE % (n, 2 if n <= 2 else 1)) for n in range(1, 4)}
 FN_OF = [("leaf", "Expression::eval [Value arm]"), ("unary", "Expression::eval [Unary arm]"), ("binary", "Expression::eval [Binary arm]"),
          ("ternary", "Expression::eval [Ternary arm]"), ("concat", "Expression::eval [Concatenation arm]"),
          ("ct_", "Expression::eval [Ternary arm] vs analyzer Expression::eval_value [Ternary arm]"), ("canary_ct", "analyzer Expression::eval_value [Ternary arm]")]
@@ -197,11 +197,12 @@ def build(ctx, res):
     itext = interp_module(ctx, items)
     ctext = ct_module(ctx, items)
     raw = ctx.unit_file("interp", "harness.rs")
-    h = raw.replace("#[vp_proof_uf]", "#[vp_proof]\n" + UF_ATTRS)
+    h = raw.replace("#[vp_proof_uf_u2]", VL.expand_harness_attrs("#[vp_proof]\n" + UF_ATTRS, unwind=2))
+    h = h.replace("#[vp_proof_uf]", "#[vp_proof]\n" + UF_ATTRS)
     h = VL.expand_harness_attrs(h, unwind=8)
     lib = VL.PRELUDE + vtext + otext + itext + ctext + VL.BIG_STUBS + opeval_spec(ctx) + any_op_text(op_variants(oitems[0])) + h
     hs = []
-    for n in re.findall(r"#\[vp_proof(?:_uf)?\]\s*pub fn (\w+)", raw):
+    for n in re.findall(r"#\[vp_proof(?:_uf|_uf_u2)?\]\s*pub fn (\w+)", raw):
         kind, bound = ("canary", None) if n.startswith("canary_") else KINDS.get(n, ("proof", None))
         fn = [f for p, f in FN_OF if n.startswith(p) or (n.startswith("canary_") and n[7:].startswith(p))]
         hs.append(Harness("harness::" + n, kind=kind, fn=fn[-1] if fn else "Expression::eval", bound=bound))
@@ -225,4 +226,4 @@ def build(ctx, res):
     res.samples.append({"obligation": "kani:interp:ternary_select_extend", "contract": res.clauses["Ternary"]})
     res.notes.append("interp: rule EC replaces the Variable / DynamicVariable arms of Expression::eval by panic!; the set of arms is checked against the unit's list "
                      "(a new arm makes the run undecided); rule EU = Ackermann-encoded uninterpreted operator functions (kani::stub on Op::eval_value_*), natively the real functions run")
-    return [KaniJob("interp", lib, hs, deps=DEPS, items=vitems + oitems + items, trusted=TRUSTED, jobs=3, timeout=1500, per_harness_timeout=600)]
+    return [KaniJob("interp", lib, hs, deps=DEPS, items=vitems + oitems + items, trusted=TRUSTED, jobs=3, timeout=2400, per_harness_timeout=900)]
